@@ -61,7 +61,7 @@ class _W:
             pass
 
 
-def run(f, units, jobs, deadline_s=None, on_fail=None, expand=None, retries=1):
+def run(f, units, jobs, deadline_s=None, on_fail=None, expand=None, retries=2):
     """results in submission order (expanded units appended in the order they were produced)"""
     deadline_s = float(os.environ.get("VERIF_UNIT_DEADLINE", deadline_s or 900))
     on_fail = on_fail or (lambda x, why: {"crash": why})
